@@ -150,3 +150,54 @@ Proof.
   - intros scs. split; [apply HJ0|apply HI0].
   - intros s m [H1 H2]. split; [apply HJ; exact H1|apply HI; assumption].
 Qed.
+
+(** errors are sticky under micro-steps too, so every intermediate state of an error-free run is error-free *)
+Lemma err_mono_astep s t i rest : err s = true -> err (astep s t i rest) = true.
+Proof.
+  intros He. unfold astep.
+  pose proof (set_pend_err_mono s t rest He) as H0.
+  pose proof (exec1_state (set_pend s t rest) t (held_of (set_pend s t rest) t) i) as (_ & _ & H1). cbv zeta in H1. specialize (H1 H0).
+  destruct (exec1 (set_pend s t rest) t (held_of (set_pend s t rest) t) i) as [s1 front]. cbn [fst] in H1.
+  apply set_pend_err_mono. exact H1.
+Qed.
+
+Lemma err_mono_mstep s m : err s = true -> err (mstep s m) = true.
+Proof.
+  intros He. destruct m; cbn [mstep]; try (apply err_mono_step; exact He).
+  - destruct (get s a) as [x|] eqn:Hg; [|reflexivity]. destruct (a_cons x); try reflexivity.
+    pose proof (dispatch_err (set_actor s a (busy x)) a (busy x) e (get_set_same' s a _ x Hg)) as Hd.
+    destruct (dispatch (set_actor s a (busy x)) a (busy x) e) as [s1 ins]. cbn [fst] in Hd.
+    apply set_pend_err_mono. rewrite Hd. exact He.
+  - destruct (pend_of s t) as [|i rest]; [reflexivity|]. destruct i; try reflexivity. apply set_pend_err_mono. exact He.
+  - destruct (pend_of s t) as [|i rest]; [reflexivity|]. destruct i; try reflexivity. apply set_pend_err_mono. apply with_actor_fields. exact He.
+  - destruct (pend_of s t) as [|i rest]; [reflexivity|]. destruct i; try reflexivity.
+    destruct (get s (self_of t)) as [x|]; [|reflexivity]. destruct (a_paused x); apply set_pend_err_mono; exact He.
+  - destruct (pend_of s t) as [|i rest]; [reflexivity|]. destruct i; try reflexivity. apply set_pend_err_mono. exact He.
+  - destruct (pend_of s t) as [|i rest]; [exact He|].
+    destruct i; try exact He; try (apply err_mono_astep; exact He).
+    + apply set_pend_err_mono, resolve_err_mono. exact He.
+    + destruct remaining; [apply err_mono_astep; exact He|exact He].
+Qed.
+
+Lemma err_mono_mrun ms : forall s, err s = true -> err (mrun ms s) = true.
+Proof. induction ms as [|m ms IH]; intros s H; [exact H|]. apply IH, err_mono_mstep, H. Qed.
+
+(** the invariant principle with error-freedom of every micro-step as an extra hypothesis *)
+Theorem micro_invariant_err (J I : state -> Prop) :
+  (forall scs, J (init_with scs)) -> (forall s m, J s -> J (mstep s m)) ->
+  (forall scs, I (init_with scs)) ->
+  (forall s m, J s -> I s -> err (mstep s m) = false -> I (mstep s m)) ->
+  forall s, reachable s -> I s.
+Proof.
+  intros HJ0 HJ HI0 HI s (scs & evs & -> & He).
+  assert (Hm : forall ms s0, J s0 -> I s0 -> err (mrun ms s0) = false -> J (mrun ms s0) /\ I (mrun ms s0)).
+  { induction ms as [|m ms IH]; intros s0 J0 I0 E0; [split; assumption|]. change (mrun (m :: ms) s0) with (mrun ms (mstep s0 m)) in *.
+    assert (Em : err (mstep s0 m) = false) by (destruct (err (mstep s0 m)) eqn:E; [rewrite (err_mono_mrun ms _ E) in E0; discriminate|reflexivity]).
+    apply IH; [apply HJ; exact J0|apply HI; assumption|exact E0]. }
+  assert (Hrun : forall evs s0, J s0 -> I s0 -> err (run_events evs s0) = false -> J (run_events evs s0) /\ I (run_events evs s0)).
+  { clear He evs. induction evs as [|ev r IH]; intros s0 J0 I0 E0; [split; assumption|].
+    change (run_events (ev :: r) s0) with (run_events r (step s0 ev)) in *.
+    pose proof (err_false_run_head r s0 ev E0) as E1. destruct (step_micro s0 ev E1) as [ms Hms].
+    rewrite Hms in *. destruct (Hm ms s0 J0 I0 E1) as [J1 I1]. apply IH; assumption. }
+  apply (Hrun evs (init_with scs) (HJ0 scs) (HI0 scs) He).
+Qed.
